@@ -22,6 +22,7 @@
 import GunYu.Proofs.SenderWire
 import GunYu.Proofs.TargetSeq
 import GunYu.Proofs.Crash
+import GunYu.Proofs.TxnShape
 
 namespace GunYu.Props.C02
 open GunYu GunYu.Sender GunYu.Target
@@ -222,6 +223,121 @@ theorem crash_loses_no_write (c : SCfg) (evs : List Ev) (hm : SMono initS.lastOf
   have := hsorted.2.2 _ hk _ hy
   omega
 
+/-! ### Transactional mode: nothing executed is left uncovered (nothing repeats) -/
+
+theorem datakey_mem {l : List Req} {y : Int} (h : 2 * y ∈ keysB l) : dataB l ≠ [] := by
+  unfold keysB at h
+  obtain ⟨r, hr, hk⟩ := List.mem_filterMap.mp h
+  cases r with
+  | cmd n a off =>
+    simp only [keyOfReq] at hk
+    by_cases hp : n = bPing
+    · simp [hp] at hk
+    · intro hnil
+      have : (n, a) ∈ dataB l := by
+        unfold dataB
+        exact List.mem_filterMap.mpr ⟨_, hr, by simp [cmdOfReq, hp]⟩
+      rw [hnil] at this; cases this
+  | cpOffset o => simp only [keyOfReq] at hk; injection hk with hk; omega
+  | multi => simp [keyOfReq] at hk
+  | exec => simp [keyOfReq] at hk
+  | cpMeta => simp [keyOfReq] at hk
+
+theorem cpkey_mem {l : List Req} {o : Int} (h : 2 * o + 1 ∈ keysB l) : o ∈ cpOffsetsB l := by
+  unfold keysB at h
+  obtain ⟨r, hr, hk⟩ := List.mem_filterMap.mp h
+  unfold cpOffsetsB
+  refine List.mem_filterMap.mpr ⟨r, hr, ?_⟩
+  cases r with
+  | cmd n a off =>
+    simp only [keyOfReq] at hk
+    split at hk
+    · cases hk
+    · injection hk with hk; omega
+  | cpOffset o' => simp only [keyOfReq] at hk; injection hk with hk; simp [cpOfReq]; omega
+  | multi => simp [keyOfReq] at hk
+  | exec => simp [keyOfReq] at hk
+  | cpMeta => simp [keyOfReq] at hk
+
+theorem keysB_sublist_keys {b : Batch} {out : List Batch} (h : b ∈ out) :
+    List.Sublist (keysB b) (keys out) := by
+  induction out with
+  | nil => cases h
+  | cons x rest ih =>
+    simp only [keys, List.flatMap_cons]
+    rcases List.mem_cons.mp h with rfl | h'
+    · exact List.sublist_append_left _ _
+    · exact (ih h').trans (List.sublist_append_right _ _)
+
+theorem cp_bodies_of_mem {b : Batch} {l : List Batch} (hwf : AllWF l) (h : b ∈ l) :
+    ∀ o ∈ cpOffsetsB b, o ∈ cpOffsetsB (bodies l) := by
+  intro o ho
+  induction l with
+  | nil => cases h
+  | cons x rest ih =>
+    have hx : cpOffsetsB (stripB x) = cpOffsetsB x := by
+      obtain ⟨body, _, hs, hsh⟩ := stripB_wf x (hwf x (List.mem_cons_self ..))
+      rw [hs]
+      rcases hsh with e | e
+      · rw [e]
+      · rw [e]; simp [cpOffsetsB, cpOfReq, List.filterMap_append, List.filterMap]
+    simp only [bodies, List.flatMap_cons, cpOffsetsB_append]
+    rcases List.mem_cons.mp h with rfl | h'
+    · exact List.mem_append_left _ (by rw [hx]; exact ho)
+    · exact List.mem_append_right _ (ih (fun y hy => hwf y (List.mem_cons_of_mem _ hy)) h')
+
+/-- **Transactional mode: a crash at any instant repeats nothing.** In
+    transactional, resumable mode let the target die after ANY number `k` of the
+    requests of ANY run. Every data command it executed (key `2·y`) is covered
+    by a checkpoint write `o ≥ y` that it executed as well — so the position the
+    next start finds is at or beyond every executed command, and nothing is
+    replayed twice. (With `crash_loses_no_write`: the stored position is exactly
+    the boundary between executed and not executed.) -/
+theorem txn_crash_repeats_nothing (c : SCfg) (hc : c.txnMode = true) (hres : c.resume = true)
+    (evs : List Ev) (hm : SMono initS.lastOffset evs) (hnn : NonNeg evs)
+    (t : TState) (hq : t.queued = none) (k : Nat) :
+    let out := (run c initS evs).2
+    ∃ E, SameData (applyLog t (out.flatten.take k)) (E.foldl execReq t) ∧
+      ∀ y, 2 * y ∈ keysB E → ∃ o ∈ cpOffsetsB E, y ≤ o := by
+  simp only
+  have hwf := run_wf c initS evs
+  have hshape := run_shape_txn c hc hres initS (Or.inl rfl) evs hnn
+  have hsorted := wire_ordered c evs hm
+  obtain ⟨m, E', hsame, hE'⟩ := crash_whole_batches (run c initS evs).2 hwf t hq k
+  refine ⟨_, hsame, ?_⟩
+  intro y hy
+  rw [keysB_append] at hy
+  have hwfm : AllWF ((run c initS evs).2.take m) := fun b hb => hwf b (List.mem_of_mem_take hb)
+  rcases List.mem_append.mp hy with hy1 | hy2
+  · -- the command sits in one of the completely executed batches
+    rw [keys_bodies _ hwfm] at hy1
+    obtain ⟨b, hbm, hyb⟩ := List.mem_flatMap.mp hy1
+    have hb : b ∈ (run c initS evs).2 := List.mem_of_mem_take hbm
+    rcases hshape b hb with hnd | ⟨_, K, o, hK⟩
+    · exact absurd hnd (datakey_mem hyb)
+    · have hsb : (keysB b).Pairwise (· ≤ ·) := hsorted.sublist (keysB_sublist_keys hb)
+      have ho : o ∈ cpOffsetsB b := cpkey_mem (by rw [hK]; simp)
+      refine ⟨o, ?_, ?_⟩
+      · rw [cpOffsetsB_append]
+        exact List.mem_append_left _ (cp_bodies_of_mem hwfm hbm o ho)
+      · rw [hK] at hyb hsb
+        rcases List.mem_append.mp hyb with h1 | h1
+        · have := (List.pairwise_append.mp hsb).2.2 _ h1 (2 * o + 1) (by simp)
+          omega
+        · simp at h1; omega
+  · -- a prefix of an unbracketed batch: such a batch carries no data
+    rcases hE' with rfl | ⟨b, hb, hstrip, hpre⟩
+    · simp [keysB] at hy2
+    · exfalso
+      rcases hshape b hb with hnd | ⟨⟨body, _, hbb⟩, _⟩
+      · obtain ⟨tl, rfl⟩ := hpre
+        have : 2 * y ∈ keysB (E' ++ tl) := by rw [keysB_append]; exact List.mem_append_left _ hy2
+        exact datakey_mem this hnd
+      · rw [hbb, stripB_block] at hstrip
+        have := congrArg List.length hstrip
+        simp at this
+        omega
+
 /-- the checkpoint offset is written into the database the connection is in -/
 theorem cp_lands_in_current_db (t : TState) (o : Int) :
     (getCp (execReq t (.cpOffset o)).cps t.cur).offset = some o ∧
@@ -240,6 +356,8 @@ def exEvs : List Ev :=
     .item { cmd := bExec, args := [], offset := 1109, db := 1 } ]
 
 example : SMono initS.lastOffset exEvs := by simp [SMono, exEvs, initS]
+example : NonNeg exEvs := by simp [NonNeg, exEvs]
+example : exCfg.txnMode = true ∧ exCfg.resume = true := ⟨rfl, rfl⟩
 example : keys (run exCfg initS exEvs).2 = [2060, 2061, 2106, 2107, 2107, 2190, 2219] := by decide +kernel
 
 end GunYu.Props.C02
